@@ -120,6 +120,23 @@ Proof.
   rewrite firstn_app, Nat.sub_diag, firstn_all. cbn [firstn]. rewrite app_nil_r. reflexivity.
 Qed.
 
+Lemma slice_firstn_list (xs : list R) (m : nat) : (m <= length xs)%nat ->
+  py_slice (VList (fl xs)) VNone (VInt (Z.of_nat m)) = VList (fl (firstn m xs)).
+Proof.
+  intro Hm. unfold py_slice. cbn [norm]. rewrite fl_length. unfold clampi.
+  assert (H1 : (Z.of_nat m <? 0)%Z = false) by (apply Z.ltb_ge; lia). rewrite !H1.
+  assert (H2 : (Z.of_nat (length xs) <? Z.of_nat m)%Z = false) by (apply Z.ltb_ge; lia). rewrite H2.
+  cbn [Z.to_nat skipn]. rewrite Z.sub_0_r, Nat2Z.id. unfold fl. rewrite firstn_map. reflexivity.
+Qed.
+Lemma slice_firstn_tuple (xs : list R) (m : nat) : (m <= length xs)%nat ->
+  py_slice (VTuple (fl xs)) VNone (VInt (Z.of_nat m)) = VTuple (fl (firstn m xs)).
+Proof.
+  intro Hm. unfold py_slice. cbn [norm]. rewrite fl_length. unfold clampi.
+  assert (H1 : (Z.of_nat m <? 0)%Z = false) by (apply Z.ltb_ge; lia). rewrite !H1.
+  assert (H2 : (Z.of_nat (length xs) <? Z.of_nat m)%Z = false) by (apply Z.ltb_ge; lia). rewrite H2.
+  cbn [Z.to_nat skipn]. rewrite Z.sub_0_r, Nat2Z.id. unfold fl. rewrite firstn_map. reflexivity.
+Qed.
+
 From Ltac2 Require Ltac2.
 Ltac2 Set C17_whnf.is_blocked := fun c =>
   Ltac2.List.exist (Ltac2.Constr.equal c)
@@ -129,7 +146,7 @@ Ltac2 Set C17_whnf.is_blocked := fun c =>
      'zp; 'il; '@app; '@py_slice; 'Z.eqb; 'Z.ltb; 'Z.leb; 'Z.gtb; 'Z.geb; '@CurveFitting__compute_parameters].
 
 (* arithmetic side conditions about lengths *)
-Ltac zsolve := rewrite ?fl_length, ?app_length, ?il_length, ?map_length; cbn [length]; lia.
+Ltac zsolve := rewrite ?fl_length, ?app_length, ?il_length, ?map_length, ?firstn_length, ?fl_length; cbn [length]; lia.
 
 (* integer comparisons are decided by lia from the hypotheses about lengths; an innermost one
    (operands free of comparisons) first *)
@@ -159,6 +176,7 @@ Ltac ctor_hook run s :=
               tryif is_canon2 v then
                 tryif is_canon2 hi then
                   first [ rewrite slice_all_list by zsolve | rewrite slice_all_tuple by zsolve | rewrite slice_drop_last
+                        | rewrite slice_firstn_list by zsolve | rewrite slice_firstn_tuple by zsolve
                         | rewrite (py_slice_unfold v lo hi); unfold py_slice_body ]
                 else (let H := fresh "Hev" in eassert (H : hi = _) by (run; py_canon_refl2); rewrite H; clear H)
               else (let H := fresh "Hev" in eassert (H : v = _) by (run; py_canon_refl2); rewrite H; clear H)
@@ -183,15 +201,14 @@ Ltac pyrunN := pyrun2 pylra_fast idx_floats ltac:(fun s => ctor_hook ltac:(pyrun
 Definition obj11 (v0 v1 v2 v3 v4 v5 v6 v7 v8 v9 v10 : val R) : val R :=
   VObj cCurveFitting [v0; v1; v2; v3; v4; v5; v6; v7; v8; v9; v10].
 
-Lemma set_two_lists (xs ys : list R) v0 v1 v2 v3 v4 v5 v6 v7 v8 v9 v10 :
-  length xs = length ys -> (2 <= length xs)%nat ->
+(* two sequences of different lengths are both cut to the shorter one *)
+Lemma set_two_lists_short_x (xs ys : list R) v0 v1 v2 v3 v4 v5 v6 v7 v8 v9 v10 :
+  (length xs <= length ys)%nat -> (2 <= length xs)%nat ->
   CurveFitting_set Rops (obj11 v0 v1 v2 v3 v4 v5 v6 v7 v8 v9 v10) (VTuple [VList (fl xs); VList (fl ys)])
-  = VTuple [cf_of xs ys; VNone].
+  = VTuple [cf_of xs (firstn (length xs) ys); VNone].
 Proof.
-  intros Hl H2. unfold obj11.
-  pyrunN.
-  rewrite (zip_lists Rops).
-  pyrunN.
+  intros Hl H2. unfold obj11. pyrunN.
+  rewrite (zip_lists Rops). pyrunN.
   match goal with |- ?f (zp _ _) _ _ _ = _ => set (loop := f) end.
   assert (Hloop : forall xs' ys' px py xv yv, length xs' = length ys' ->
     loop (zp xs' ys') (VObj cCurveFitting [VList (fl px); VList (fl py); v2; v3; v4; v5; v6; v7; v8; v9; v10]) xv yv
@@ -200,8 +217,77 @@ Proof.
     - rewrite zp_nil, !app_nil_r. reflexivity.
     - rewrite zp_cons. pyrunN. fold loop. cbn [item nth]. rewrite !fl_snoc.
       rewrite IH by (simpl in Hl; lia). rewrite <- !app_assoc. reflexivity. }
-  change (@VList R []) with (VList (fl [])). rewrite (Hloop xs ys [] [] _ _ Hl). cbn [app].
-  subst loop. pyrunN. reflexivity.
+  change (@VList R []) with (VList (fl [])).
+  rewrite (Hloop (xs) (firstn (length (fl xs)) ys) [] []) by zsolve. cbn [app].
+  subst loop. pyrunN. rewrite fl_length. reflexivity.
+Qed.
+
+Lemma set_two_lists_short_y (xs ys : list R) v0 v1 v2 v3 v4 v5 v6 v7 v8 v9 v10 :
+  (length ys < length xs)%nat -> (2 <= length ys)%nat ->
+  CurveFitting_set Rops (obj11 v0 v1 v2 v3 v4 v5 v6 v7 v8 v9 v10) (VTuple [VList (fl xs); VList (fl ys)])
+  = VTuple [cf_of (firstn (length ys) xs) ys; VNone].
+Proof.
+  intros Hl H2. unfold obj11. pyrunN.
+  rewrite (zip_lists Rops). pyrunN.
+  match goal with |- ?f (zp _ _) _ _ _ = _ => set (loop := f) end.
+  assert (Hloop : forall xs' ys' px py xv yv, length xs' = length ys' ->
+    loop (zp xs' ys') (VObj cCurveFitting [VList (fl px); VList (fl py); v2; v3; v4; v5; v6; v7; v8; v9; v10]) xv yv
+    = loop [] (VObj cCurveFitting [VList (fl (px ++ xs')); VList (fl (py ++ ys')); v2; v3; v4; v5; v6; v7; v8; v9; v10]) VNone VNone).
+  { clear. induction xs' as [| a xs' IH]; intros [| b ys'] px py xv yv Hl; try discriminate Hl.
+    - rewrite zp_nil, !app_nil_r. reflexivity.
+    - rewrite zp_cons. pyrunN. fold loop. cbn [item nth]. rewrite !fl_snoc.
+      rewrite IH by (simpl in Hl; lia). rewrite <- !app_assoc. reflexivity. }
+  change (@VList R []) with (VList (fl [])).
+  rewrite (Hloop (firstn (length (fl ys)) xs) (ys) [] []) by zsolve. cbn [app].
+  subst loop. pyrunN. rewrite fl_length. reflexivity.
+Qed.
+
+Lemma set_two_tuples_short_x (xs ys : list R) v0 v1 v2 v3 v4 v5 v6 v7 v8 v9 v10 :
+  (length xs <= length ys)%nat -> (2 <= length xs)%nat ->
+  CurveFitting_set Rops (obj11 v0 v1 v2 v3 v4 v5 v6 v7 v8 v9 v10) (VTuple [VTuple (fl xs); VTuple (fl ys)])
+  = VTuple [cf_of xs (firstn (length xs) ys); VNone].
+Proof.
+  intros Hl H2. unfold obj11. pyrunN.
+  rewrite (zip_tuples Rops). pyrunN.
+  match goal with |- ?f (zp _ _) _ _ _ = _ => set (loop := f) end.
+  assert (Hloop : forall xs' ys' px py xv yv, length xs' = length ys' ->
+    loop (zp xs' ys') (VObj cCurveFitting [VList (fl px); VList (fl py); v2; v3; v4; v5; v6; v7; v8; v9; v10]) xv yv
+    = loop [] (VObj cCurveFitting [VList (fl (px ++ xs')); VList (fl (py ++ ys')); v2; v3; v4; v5; v6; v7; v8; v9; v10]) VNone VNone).
+  { clear. induction xs' as [| a xs' IH]; intros [| b ys'] px py xv yv Hl; try discriminate Hl.
+    - rewrite zp_nil, !app_nil_r. reflexivity.
+    - rewrite zp_cons. pyrunN. fold loop. cbn [item nth]. rewrite !fl_snoc.
+      rewrite IH by (simpl in Hl; lia). rewrite <- !app_assoc. reflexivity. }
+  change (@VList R []) with (VList (fl [])).
+  rewrite (Hloop (xs) (firstn (length (fl xs)) ys) [] []) by zsolve. cbn [app].
+  subst loop. pyrunN. rewrite fl_length. reflexivity.
+Qed.
+
+Lemma set_two_tuples_short_y (xs ys : list R) v0 v1 v2 v3 v4 v5 v6 v7 v8 v9 v10 :
+  (length ys < length xs)%nat -> (2 <= length ys)%nat ->
+  CurveFitting_set Rops (obj11 v0 v1 v2 v3 v4 v5 v6 v7 v8 v9 v10) (VTuple [VTuple (fl xs); VTuple (fl ys)])
+  = VTuple [cf_of (firstn (length ys) xs) ys; VNone].
+Proof.
+  intros Hl H2. unfold obj11. pyrunN.
+  rewrite (zip_tuples Rops). pyrunN.
+  match goal with |- ?f (zp _ _) _ _ _ = _ => set (loop := f) end.
+  assert (Hloop : forall xs' ys' px py xv yv, length xs' = length ys' ->
+    loop (zp xs' ys') (VObj cCurveFitting [VList (fl px); VList (fl py); v2; v3; v4; v5; v6; v7; v8; v9; v10]) xv yv
+    = loop [] (VObj cCurveFitting [VList (fl (px ++ xs')); VList (fl (py ++ ys')); v2; v3; v4; v5; v6; v7; v8; v9; v10]) VNone VNone).
+  { clear. induction xs' as [| a xs' IH]; intros [| b ys'] px py xv yv Hl; try discriminate Hl.
+    - rewrite zp_nil, !app_nil_r. reflexivity.
+    - rewrite zp_cons. pyrunN. fold loop. cbn [item nth]. rewrite !fl_snoc.
+      rewrite IH by (simpl in Hl; lia). rewrite <- !app_assoc. reflexivity. }
+  change (@VList R []) with (VList (fl [])).
+  rewrite (Hloop (firstn (length (fl ys)) xs) (ys) [] []) by zsolve. cbn [app].
+  subst loop. pyrunN. rewrite fl_length. reflexivity.
+Qed.
+
+Lemma set_two_lists (xs ys : list R) v0 v1 v2 v3 v4 v5 v6 v7 v8 v9 v10 :
+  length xs = length ys -> (2 <= length xs)%nat ->
+  CurveFitting_set Rops (obj11 v0 v1 v2 v3 v4 v5 v6 v7 v8 v9 v10) (VTuple [VList (fl xs); VList (fl ys)])
+  = VTuple [cf_of xs ys; VNone].
+Proof.
+  intros Hl H2. rewrite set_two_lists_short_x by lia. rewrite Hl, firstn_all. reflexivity.
 Qed.
 
 Lemma set_two_tuples (xs ys : list R) v0 v1 v2 v3 v4 v5 v6 v7 v8 v9 v10 :
@@ -209,20 +295,19 @@ Lemma set_two_tuples (xs ys : list R) v0 v1 v2 v3 v4 v5 v6 v7 v8 v9 v10 :
   CurveFitting_set Rops (obj11 v0 v1 v2 v3 v4 v5 v6 v7 v8 v9 v10) (VTuple [VTuple (fl xs); VTuple (fl ys)])
   = VTuple [cf_of xs ys; VNone].
 Proof.
-  intros Hl H2. unfold obj11.
-  pyrunN.
-  rewrite (zip_tuples Rops).
-  pyrunN.
-  match goal with |- ?f (zp _ _) _ _ _ = _ => set (loop := f) end.
-  assert (Hloop : forall xs' ys' px py xv yv, length xs' = length ys' ->
-    loop (zp xs' ys') (VObj cCurveFitting [VList (fl px); VList (fl py); v2; v3; v4; v5; v6; v7; v8; v9; v10]) xv yv
-    = loop [] (VObj cCurveFitting [VList (fl (px ++ xs')); VList (fl (py ++ ys')); v2; v3; v4; v5; v6; v7; v8; v9; v10]) VNone VNone).
-  { clear. induction xs' as [| a xs' IH]; intros [| b ys'] px py xv yv Hl; try discriminate Hl.
-    - rewrite zp_nil, !app_nil_r. reflexivity.
-    - rewrite zp_cons. pyrunN. fold loop. cbn [item nth]. rewrite !fl_snoc.
-      rewrite IH by (simpl in Hl; lia). rewrite <- !app_assoc. reflexivity. }
-  change (@VList R []) with (VList (fl [])). rewrite (Hloop xs ys [] [] _ _ Hl). cbn [app].
-  subst loop. pyrunN. reflexivity.
+  intros Hl H2. rewrite set_two_tuples_short_x by lia. rewrite Hl, firstn_all. reflexivity.
+Qed.
+
+(* fewer than two points in either sequence: refused *)
+Lemma set_two_lists_too_short (xs ys : list R) v0 v1 v2 v3 v4 v5 v6 v7 v8 v9 v10 :
+  (length xs < 2 \/ length ys < 2)%nat ->
+  CurveFitting_set Rops (obj11 v0 v1 v2 v3 v4 v5 v6 v7 v8 v9 v10) (VTuple [VList (fl xs); VList (fl ys)])
+  = VErr ValueError.
+Proof.
+  intros H. unfold obj11.
+  destruct (le_lt_dec (length xs) (length ys)) as [Hc | Hc].
+  - pyrunN. reflexivity.
+  - pyrunN. reflexivity.
 Qed.
 
 (* copy: set(other) takes over the two lists of any CurveFitting object and recomputes the sums *)
@@ -388,4 +473,47 @@ Proof.
   split; [exact (set_two_lists xs ys _ _ _ _ _ _ _ _ _ _ _ Hl H2) |].
   split; [exact (set_interleaved l _ _ _ _ _ _ _ _ _ _ _ H2l) |].
   exact (set_copy xs ys _ _ _ _ _ _ _ _ _ _ _ _ _ _ _ _ _ _ _ _ Hl H1).
+Qed.
+
+(* sequences of different lengths: both are cut to the shorter one (m = min); too short: refused *)
+Lemma set_two_lists_min (xs ys : list R) v0 v1 v2 v3 v4 v5 v6 v7 v8 v9 v10 :
+  (2 <= length xs)%nat -> (2 <= length ys)%nat ->
+  let m := Nat.min (length xs) (length ys) in
+  CurveFitting_set Rops (obj11 v0 v1 v2 v3 v4 v5 v6 v7 v8 v9 v10) (VTuple [VList (fl xs); VList (fl ys)])
+  = VTuple [cf_of (firstn m xs) (firstn m ys); VNone].
+Proof.
+  intros Hx Hy m. unfold m. destruct (le_lt_dec (length xs) (length ys)) as [Hc | Hc].
+  - rewrite Nat.min_l by exact Hc. rewrite firstn_all. apply set_two_lists_short_x; assumption.
+  - rewrite Nat.min_r by lia. rewrite (firstn_all ys). apply set_two_lists_short_y; assumption.
+Qed.
+Lemma set_two_tuples_min (xs ys : list R) v0 v1 v2 v3 v4 v5 v6 v7 v8 v9 v10 :
+  (2 <= length xs)%nat -> (2 <= length ys)%nat ->
+  let m := Nat.min (length xs) (length ys) in
+  CurveFitting_set Rops (obj11 v0 v1 v2 v3 v4 v5 v6 v7 v8 v9 v10) (VTuple [VTuple (fl xs); VTuple (fl ys)])
+  = VTuple [cf_of (firstn m xs) (firstn m ys); VNone].
+Proof.
+  intros Hx Hy m. unfold m. destruct (le_lt_dec (length xs) (length ys)) as [Hc | Hc].
+  - rewrite Nat.min_l by exact Hc. rewrite firstn_all. apply set_two_tuples_short_x; assumption.
+  - rewrite Nat.min_r by lia. rewrite (firstn_all ys). apply set_two_tuples_short_y; assumption.
+Qed.
+
+Theorem input_forms_truncation :
+  forall (v0 v1 v2 v3 v4 v5 v6 v7 v8 v9 v10 : val R) (xs ys : list R),
+  let o := obj11 v0 v1 v2 v3 v4 v5 v6 v7 v8 v9 v10 in
+  let m := Nat.min (length xs) (length ys) in
+  ((2 <= length xs)%nat -> (2 <= length ys)%nat ->
+     CurveFitting___init__ Rops o (VTuple [VList (fl xs); VList (fl ys)]) = cf_of (firstn m xs) (firstn m ys)
+     /\ CurveFitting___init__ Rops o (VTuple [VTuple (fl xs); VTuple (fl ys)]) = cf_of (firstn m xs) (firstn m ys))
+  /\ ((length xs < 2 \/ length ys < 2)%nat ->
+     CurveFitting___init__ Rops o (VTuple [VList (fl xs); VList (fl ys)]) = VErr ValueError).
+Proof.
+  intros v0 v1 v2 v3 v4 v5 v6 v7 v8 v9 v10 xs ys o m. unfold o. split.
+  - intros Hx Hy. split.
+    + pose proof (set_two_lists_min xs ys (VList []) (VList []) v2 v3 v4 v5 v6 v7 v8 v9 v10 Hx Hy) as E.
+      cbv zeta in E. fold m in E. init_via E.
+    + pose proof (set_two_tuples_min xs ys (VList []) (VList []) v2 v3 v4 v5 v6 v7 v8 v9 v10 Hx Hy) as E.
+      cbv zeta in E. fold m in E. init_via E.
+  - intro H.
+    pose proof (set_two_lists_too_short xs ys (VList []) (VList []) v2 v3 v4 v5 v6 v7 v8 v9 v10 H) as E.
+    unfold obj11 in *. pyrunN. cbn [py_tuple]. rewrite E. pyrunN. reflexivity.
 Qed.
